@@ -223,7 +223,7 @@ fn unused(_: B) {}
 
 pub fn run(mut run: Run) -> ! {
     crate::core::silence_panics();
-    let max_len = if run.quick() { 6 } else { 8 };
+    let max_len = if run.quick() { 7 } else { 8 };
     let seqs = Arc::new(gen_all(max_len, &["a", "b", "x"], &["2"]));
     run.rule = format!("all well-formed token sequences of length <= {max_len} over operands {{a,b,x,2}}, 9 binary operators, prefix - and not, parentheses and implicit multiplication (number|parenthesis)+ variable?, generated by a grammar-directed DFS (complete over well-formed sequences); each is rendered with keywords, with symbolic aliases, with/without whitespace and with identifiers that start with a keyword, in objective and constraint position; distinct = reference tree shapes");
     run.assume("reference: precedence climbing with one prefix operator per leaf binding tightest, * / > + - > and > xor > or > {implies right, iff left} on one level, implicit multiplication forming one left-folded factor; shapes (not only values) are compared, which is stronger than the property");
